@@ -100,3 +100,19 @@ func c20InitialAfterStop(c *Ctx, p *Prog) {
 	}
 	c.Floor(rule, n, 1)
 }
+
+func init() {
+	addMutants(
+		// round 5 class: the state goes back to initial although the stop closure did not run on one path
+		Mutant{"C20", "demand-state-reset-without-stop", "internal/core/path.go",
+			"	pa.onUnDemandHook(reason)\n	pa.onUnDemandHook = nil\n\n	pa.onDemandPublisherState = pathOnDemandStateInitial\n",
+			"	if pa.source != nil {\n		pa.onUnDemandHook(reason)\n		pa.onUnDemandHook = nil\n	}\n\n	pa.onDemandPublisherState = pathOnDemandStateInitial\n", "C20.demand.initial_after_stop"},
+		// round 5 class (C13): the in-place reload of one component also waits for another component's flag
+		Mutant{"C13", "playback-reload-guarded-by-cleaner-flag", "internal/core/core.go",
+			"	if !closePlaybackServer && p.playbackServer != nil && !reflect.DeepEqual(newConf.Paths, currentConf.Paths) {",
+			"	if !closePlaybackServer && !closeRecorderCleaner && p.playbackServer != nil && !reflect.DeepEqual(newConf.Paths, currentConf.Paths) {", "C13.hot_guard"},
+		// round 5 class (C28): a size read from the file positions into a fixed-size buffer, only its lower end is tested
+		Mutant{"C28", "tfhd-payload-into-fixed-buffer", "internal/playback/segment_fmp4.go",
+			"		buf2 := make([]byte, tfhdSize-8)\n", "		var hdrBuf [32]byte\n		buf2 := hdrBuf[:tfhdSize-8]\n", "C28.P9"},
+	)
+}
